@@ -155,7 +155,7 @@ uint16_t Avtp_Vss_CalcVssPathLength(Avtp_Vss_t* pdu) {
     return path_length;
 }
 
-uint8_t Avtp_Vss_GetVSSDataStringArrayLength(VssDataStringArray_t* str_array) {
+uint16_t Avtp_Vss_GetVSSDataStringArrayLength(VssDataStringArray_t* str_array) {
 
     uint16_t total_length = str_array->data_length;
     uint8_t * vss_data_string_array_raw = str_array->data;
